@@ -15,6 +15,7 @@ import Mathlib.Data.Rat.Defs
 import Mathlib.Algebra.Order.Field.Rat
 import Mathlib.Tactic.Ring
 import Mathlib.Tactic.FieldSimp
+import Mathlib.Tactic.NormNum
 namespace SharkVerif.HV
 open SharkVerif.Pareto
 
@@ -22,10 +23,10 @@ open SharkVerif.Pareto
 abbrev QPt := List Rat
 
 /-- scale by `d` and take numerators (meaningful when `d` clears the denominators of `p`) -/
-def toIntPt (d : Nat) (p : QPt) : Pt := p.map fun x => (x * d).num
+def toIntPt (d : Nat) (p : QPt) : Pt := p.map fun (x : Rat) => (x * (d : Rat)).num
 
 /-- `d` is a common multiple of the denominators of the coordinates of `p` -/
-def Clears (d : Nat) (p : QPt) : Prop := ∀ x ∈ p, (x * d).den = 1
+def Clears (d : Nat) (p : QPt) : Prop := ∀ x ∈ p, (x * (d : Rat)).den = 1
 
 /-- the hypervolume of rational points: the integer hypervolume of the points scaled by the common
 denominator `d`, divided by `d ^ m` -/
@@ -136,6 +137,18 @@ theorem hvSpecQ_indep {d d' : Nat} (hd : 0 < d) (hd' : 0 < d') (S : List QPt) (r
     hvSpecQ d S r = hvSpecQ d' S r := by
   rw [← hvSpecQ_mul hd hd' S r hS hr, Nat.mul_comm, hvSpecQ_mul hd' hd S r hS' hr']
 
+/-- the box `[1/2, 3/2) × [1, 2)` has area 1, computed with the denominators 2 and 4 -/
+example : hvSpecQ 2 [[1/2, 1]] [3/2, 2] = 1 ∧ hvSpecQ 4 [[1/2, 1]] [3/2, 2] = 1 := by
+  have e2 : toIntPt 2 [1/2, 1] = [1, 2] ∧ toIntPt 2 [3/2, 2] = [3, 4] := by
+    constructor <;> (simp only [toIntPt, List.map]; norm_num)
+  have e4 : toIntPt 4 [1/2, 1] = [2, 4] ∧ toIntPt 4 [3/2, 2] = [6, 8] := by
+    constructor <;> (simp only [toIntPt, List.map]; norm_num)
+  have h2 : hvSpec [[1, 2]] [3, 4] = 4 := by decide
+  have h4 : hvSpec [[2, 4]] [6, 8] = 16 := by decide
+  constructor
+  · simp only [hvSpecQ, List.map, e2.1, e2.2, h2]; norm_num
+  · simp only [hvSpecQ, List.map, e4.1, e4.2, h4]; norm_num
+
 theorem rankSpecQ_mul {d d' : Nat} (hd' : 0 < d') (S : List QPt) (p : QPt)
     (hS : ∀ q ∈ S, Clears d q) (hp : Clears d p) : rankSpecQ (d * d') S p = rankSpecQ d S p := by
   unfold rankSpecQ
@@ -165,23 +178,40 @@ theorem rankSpecQ_eq {d : Nat} (hd : 0 < d) (S : List QPt) (p : QPt)
 
 /-! ### integer points are the special case `d = 1` -/
 
-theorem toIntPt_one_cast (p : Pt) : toIntPt 1 (p.map fun a => (a : Rat)) = p := by
-  unfold toIntPt
+/-- an integer point as a rational point -/
+def castPt (p : Pt) : QPt := p.map Int.cast
+
+theorem clears_castPt (d : Nat) (p : Pt) : Clears d (castPt p) := by
+  intro x hx
+  obtain ⟨a, _, rfl⟩ := List.mem_map.mp hx
+  have e : (a : Rat) * (d : Rat) = ((a * (d : Int) : Int) : Rat) := by push_cast; rfl
+  rw [e, Rat.den_intCast]
+
+theorem toIntPt_one_castPt (p : Pt) : toIntPt 1 (castPt p) = p := by
+  unfold toIntPt castPt
   rw [List.map_map]
   conv => rhs; rw [← List.map_id p]
   apply List.map_congr_left
   intro a _
   simp
 
-theorem hvSpecQ_one_cast (S : List Pt) (r : Pt) :
-    hvSpecQ 1 (S.map fun p => p.map fun a => (a : Rat)) (r.map fun a => (a : Rat)) = (hvSpec S r : Rat) := by
+/-- on integer points the rational hypervolume (with any `d > 0`) is the integer hypervolume -/
+theorem hvSpecQ_castPt {d : Nat} (hd : 0 < d) (S : List Pt) (r : Pt) :
+    hvSpecQ d (S.map castPt) (castPt r) = (hvSpec S r : Rat) := by
+  have h1 : hvSpecQ d (S.map castPt) (castPt r) = hvSpecQ 1 (S.map castPt) (castPt r) :=
+    hvSpecQ_indep hd Nat.one_pos _ _
+      (fun p hp => by obtain ⟨q, _, rfl⟩ := List.mem_map.mp hp; exact clears_castPt d q)
+      (clears_castPt d r)
+      (fun p hp => by obtain ⟨q, _, rfl⟩ := List.mem_map.mp hp; exact clears_castPt 1 q)
+      (clears_castPt 1 r)
+  rw [h1]
   unfold hvSpecQ
-  rw [List.map_map, toIntPt_one_cast]
-  have : (S.map (toIntPt 1 ∘ fun p => p.map fun a => (a : Rat))) = S := by
+  rw [List.map_map, toIntPt_one_castPt]
+  have : (S.map (toIntPt 1 ∘ castPt)) = S := by
     conv => rhs; rw [← List.map_id S]
     apply List.map_congr_left
     intro p _
-    exact toIntPt_one_cast p
+    exact toIntPt_one_castPt p
   rw [this]
   simp
 
